@@ -1467,10 +1467,11 @@ class C19(Check):
     def run_model(self, cases, tag='model'):
         return self._split_run(cases, lambda cs: self._run_driver(cs, tag, self.model_args))
 
-    # A tree on which the harness crashes or hangs on (nearly) every case: give up early.  The harness runs in chunks;
-    # after CRASH_CAP crashes / watchdog timeouts in one stream the rest of that stream, and after TOTAL_CAP in the whole
-    # run every remaining stream, is marked '! notrun' (vf drops such cases); what has been seen is reported.
-    per_case_timeout = 5
+    # A tree on which the harness crashes or hangs on (nearly) every case: give up early.  The harness runs in chunks (30 cases,
+    # doubling while nothing crashes);
+    # a watchdog timeout costs per_case_timeout seconds and counts 5, a crash counts 1; after CRASH_CAP points in one stream
+    # the rest of that stream, and after TOTAL_CAP in the whole run every remaining stream, is marked '! notrun' (vf drops
+    # such cases); what has been seen is reported.  All cases hanging: 30-60 timeouts = 5-10 minutes; all crashing: 220 reports.
     CRASH_CAP = 150
     TOTAL_CAP = 220
     _crashes_seen = 0
@@ -1481,21 +1482,24 @@ class C19(Check):
         env = {'ASAN_OPTIONS': 'detect_leaks=0:abort_on_error=0:allocator_may_return_null=1:max_allocation_size_mb=2048:symbolize=0'}
         res, crashes, bad = [], {}, 0
         streaming = tag.startswith('impl_')           # the caps are for the streams, not for shrinking / replay
-        chunk = 60
-        for a in range(0, len(cases), chunk):
+        chunk, a = 30, 0          # chunks double while nothing crashes and fall back to 30 when something does
+        while a < len(cases):
             part = cases[a:a + chunk]
             if streaming and (bad >= self.CRASH_CAP or self._crashes_seen >= self.TOTAL_CAP):
-                res += [['! notrun'] for _ in part]
-                continue
+                res += [['! notrun'] for _ in cases[a:]]
+                break
             r, cr = vf.run_exe_on_cases(self.exes['impl'], part, wd, tag, is_impl=True, per_case_timeout=self.per_case_timeout, env=env)
             res += r
             for k, v in cr.items():
                 crashes[a + k] = v
-            bad += len(cr)
+            pts = sum(5 if v[0] == 'timeout' else 1 for v in cr.values())
+            bad += pts
             if streaming:
-                self._crashes_seen += len(cr)
+                self._crashes_seen += pts
+            a += len(part)
+            chunk = 30 if cr else min(4000, chunk * 2)
         if streaming and (bad >= self.CRASH_CAP or self._crashes_seen >= self.TOTAL_CAP):
-            vf.log('[C19] %s: %d harness crashes / timeouts in this stream (%d in the run): remaining cases not run' % (tag, bad, self._crashes_seen))
+            vf.log('[C19] %s: %d points of harness crashes (1) / timeouts (5) in this stream (%d in the run): remaining cases not run' % (tag, bad, self._crashes_seen))
         return res, crashes
 
     def run_spec(self, cases, tag='spec'):
